@@ -2,7 +2,8 @@
    executing sandbox and faithfully converted arguments/results.  For EVERY slot table
    (hence after every register/unregister history), every call tree of any depth over any
    number of sandboxes, every value.  Statements only. *)
-From RLBoxV Require Import Calls Calls_proofs World.
+From RLBoxV Require Import Calls Calls_proofs World Conv Conv_proofs Ptr Ptr_proofs.
+Local Open Scope Z_scope.
 
 (* refinement: the run that goes through the back end's thread record {sandbox, last slot}
    (trampoline stores the slot, interceptor fetches (sandbox, key) on entry, invoke saves and
@@ -41,3 +42,18 @@ Theorem C12_early_key_fetch_needed :
   rans (fst (fst (fst (run slot (fun _ => false) (fun _ => false) idc idc false true {| cur := 9; lastcb := 0 |} t))))
     = rans (fst (spec slot (fun _ => false) (fun _ => false) idc idc true 9%nat t)).
 Proof. exact late_key_breaks_dispatch. Qed.
+
+(* the conversions [cin] / [cout] the dispatch theorems are parametric in, for the kinds a callback's parameter or result can
+   have: an integer the guest passes (any value of the guest's type) reaches the function unchanged or the call aborts; a
+   result is delivered to the guest unchanged or the call aborts; a data pointer the guest passes is null exactly when the
+   function sees null, otherwise designates base + representation inside the sandbox, and converts back to the same bits *)
+Theorem C12_integer_parameter : forall a k s v, abi_ok a = true -> sbx_equiv a k = Some s -> in_range s v = true ->
+  to_app a k v = Some (if in_range k v then Ok v else Abort).
+Proof. exact cb_int_param. Qed.
+Theorem C12_integer_result : forall a k v, abi_ok a = true -> in_range k v = true ->
+  (exists s, sbx_equiv a k = Some s /\ to_sbx a k v = Some (if in_range s v then Ok v else Abort)) \/ sbx_equiv a k = None.
+Proof. exact cb_int_result. Qed.
+Theorem C12_pointer_parameter : forall s rep, region_ok s -> 0 <= rep < rsize s ->
+  (unsandbox s rep = 0 <-> rep = 0) /\ ptr_inv s (unsandbox s rep) /\ sandbox_ptr s (unsandbox s rep) = rep.
+Proof. exact cb_ptr_param. Qed.
+Print Assumptions C12_pointer_parameter.
